@@ -271,6 +271,7 @@ func (f *Frame) doUnOp(x *ssa.UnOp) {
 			}
 		}
 		lv := f.lvOf(x.X)
+		f.guardCheck(lv, x.Pos(), false)
 		v := f.setVal(x, f.load(lv, x.Type()))
 		f.loadFactsB(v, x.Type(), f.lvBound(lv))
 		f.dataInvFacts(v, x.Type(), lv, x.X)
@@ -599,7 +600,27 @@ func (f *Frame) doStore(x *ssa.Store) {
 	}
 	lv := f.lvOf(x.Addr)
 	f.frameCheck(lv, x.Addr, x.Pos())
+	f.guardCheck(lv, x.Pos(), true)
 	f.store(lv, f.val(x.Val))
+}
+
+// guardCheck: class `lock` obligation for an access to a field declared `guarded T.f by mu`: the mutex of the
+// same object is held by the executing thread. Objects allocated by this function and not yet published are exempt.
+func (f *Frame) guardCheck(lv *LV, pos token.Pos, write bool) {
+	if lv == nil || lv.kind != lvField || lv.fresh || !f.checks("lock") {
+		return
+	}
+	g, ok := f.p.guards[lv.arr]
+	if !ok {
+		return
+	}
+	held := f.stGet("held", ArrSort(SInt, SBool))
+	mu := Add(lv.idx, IntLit(g.muOff))
+	kind := "read"
+	if write {
+		kind = "write"
+	}
+	f.oblige("lock", "guarded-"+kind+"("+lv.arr+")", pos, Select(held, mu))
 }
 
 // ---- interfaces ----
